@@ -507,6 +507,15 @@ void MakeValue(const AttDesc &d, uint64_t key, const float *pos, uint8_t *out) {
       }
       continue;
     }
+    if (d.vals == 3 && (d.dt == draco::DT_INT32 || d.dt == draco::DT_UINT32)) {
+      // The full 32-bit range including the extremes (values stored verbatim
+      // then need all four bytes).
+      uint32_t x = static_cast<uint32_t>(v);
+      if ((v >> 40) % 7 == 0) x = 0x80000000u;
+      if ((v >> 40) % 7 == 1) x = 0x7fffffffu;
+      memcpy(out + 4 * c, &x, 4);
+      continue;
+    }
     if (d.vals == 1 && d.dt != draco::DT_FLOAT32) {
       // Four levels spanning the type's (positive) range used here.
       const uint64_t level = v & 3;
